@@ -200,7 +200,9 @@ Set Printing Width 100000000.
 
 def _run_shard(args):
     path, = args
-    rc, out = sh(["coqc", "-noglob", "-Q", COQ, "RV", path], timeout=3000)
+    # large case terms (tens of thousands of list elements) need more stack than the default 8 MB
+    rc, out = sh("ulimit -s unlimited 2>/dev/null || ulimit -s 1000000; exec coqc -noglob -Q '%s' RV '%s'" % (COQ, path),
+                 timeout=3000)
     return rc, out
 
 
